@@ -256,7 +256,8 @@ func splitParts(data []byte, srcConnIDLen int) []partSum {
 		if !wire.IsLongHeaderPacket(data[0]) {
 			p.kind = "short"
 			p.raw = data
-			p.hdrOK = len(data) >= 1+srcConnIDLen+4+16
+			// unpackShortHeader: long enough to take the header-protection sample, and ParseShortHeader wants the fixed bit
+			p.hdrOK = len(data) >= 1+srcConnIDLen+4+16 && data[0]&0x40 != 0
 			out = append(out, p)
 			break
 		}
@@ -934,6 +935,7 @@ type outcome struct {
 	salpn     string
 	c0, s0    bool
 	cids      string
+	ccids     string
 	acc       string
 	echo      string
 	cleft     int
@@ -949,8 +951,8 @@ func (o *outcome) txt() string {
 	if o.ztxt != "" {
 		z = " " + o.ztxt
 	}
-	return z2(fmt.Sprintf("dial=%s hang=%s t=%d bound=%d att=%d cv=%d sv=%d calpn=%s salpn=%s c0=%s s0=%s cids=%s acc=%s echo=%s cleft=%d sleft=%d redial=%s",
-		o.dial, boolTxt(o.hang), o.t.Nanoseconds(), o.bound.Nanoseconds(), o.attempts, o.cv, o.sv, o.calpn, o.salpn, boolTxt(o.c0), boolTxt(o.s0), o.cids, o.acc, o.echo, o.cleft, o.sleft, o.redial), z)
+	return z2(fmt.Sprintf("dial=%s hang=%s t=%d bound=%d att=%d cv=%d sv=%d calpn=%s salpn=%s c0=%s s0=%s cids=%s ccids=%s acc=%s echo=%s cleft=%d sleft=%d redial=%s",
+		o.dial, boolTxt(o.hang), o.t.Nanoseconds(), o.bound.Nanoseconds(), o.attempts, o.cv, o.sv, o.calpn, o.salpn, boolTxt(o.c0), boolTxt(o.s0), o.cids, o.ccids, o.acc, o.echo, o.cleft, o.sleft, o.redial), z)
 }
 
 func z2(a, b string) string { return a + b }
@@ -976,7 +978,7 @@ func liveCount(t *quic.Transport) int {
 
 // run executes the scenario inside a synctest bubble.
 func (sc *scenario) run() (out *outcome) {
-	out = &outcome{cids: "-", acc: "-", echo: "-", redial: "-", calpn: "-", salpn: "-"}
+	out = &outcome{cids: "-", ccids: "-", acc: "-", echo: "-", redial: "-", calpn: "-", salpn: "-"}
 	start := time.Now()
 	savedRand := rand.Reader
 	rand.Reader = &detRand{r: vh.NewRand(sc.seed ^ 0x5eed)}
@@ -1108,6 +1110,29 @@ func (sc *scenario) run() (out *outcome) {
 	if r.err == nil {
 		cs := r.c.ConnectionState()
 		out.cv, out.calpn, out.c0 = uint32(cs.Version), cs.TLS.NegotiatedProtocol, cs.Used0RTT
+		// the client's authenticated IDs against the wire: its peer ID is the source ID of a genuine server packet,
+		// and it holds a retry_source_connection_id iff the server asked for a Retry - the one a genuine Retry carried
+		{
+			cg := r.c.VerifGateState()
+			var srvSCIDs, retrySCIDs [][]byte
+			sc.nw.mu.Lock()
+			for _, d := range sc.nw.s2c {
+				if len(d) > 0 && wire.IsLongHeaderPacket(d[0]) && !wire.IsVersionNegotiationPacket(d) {
+					if hdr, _, _, err := wire.ParsePacket(d); err == nil {
+						srvSCIDs = append(srvSCIDs, hdr.SrcConnectionID.Bytes())
+						if hdr.Type == protocol.PacketTypeRetry {
+							retrySCIDs = append(retrySCIDs, hdr.SrcConnectionID.Bytes())
+						}
+					}
+				}
+			}
+			sc.nw.mu.Unlock()
+			out.ccids = "ok"
+			if !contains(srvSCIDs, cg.HandshakeDestConnID) || cg.HasRetrySrcConnID != sc.spec.retry ||
+				(cg.HasRetrySrcConnID && !contains(retrySCIDs, cg.RetrySrcConnID)) {
+				out.ccids = "bad"
+			}
+		}
 		var srv *quic.Conn
 		tm := time.NewTimer(6 * time.Second)
 		select {
@@ -1120,10 +1145,9 @@ func (sc *scenario) run() (out *outcome) {
 		if srv != nil {
 			ss := srv.ConnectionState()
 			out.sv, out.salpn, out.s0 = uint32(ss.Version), ss.TLS.NegotiatedProtocol, ss.Used0RTT
-			cg, sg := r.c.VerifGateState(), srv.VerifGateState()
-			// authenticated connection IDs, judged against what was on the wire: the client's peer ID is the source
-			// ID of a genuine server packet, the server's peer ID is the source ID of a client packet of that version,
-			// and a retry_source_connection_id exists iff the server asked for a Retry (and is the one it chose)
+			sg := srv.VerifGateState()
+			// authenticated connection IDs, judged against what was on the wire: the server's peer ID is the source
+			// ID of a client packet of that version
 			var cliSCIDs [][]byte
 			sc.nw.mu.Lock()
 			for _, d := range sc.nw.c2s {
@@ -1134,15 +1158,7 @@ func (sc *scenario) run() (out *outcome) {
 				}
 			}
 			sc.nw.mu.Unlock()
-			sc.mu.Lock()
-			ok := contains(sc.srvSCIDs, cg.HandshakeDestConnID) && contains(cliSCIDs, sg.HandshakeDestConnID)
-			if cg.HasRetrySrcConnID != sc.spec.retry {
-				ok = false
-			}
-			if cg.HasRetrySrcConnID && !contains(sc.retrySCIDs, cg.RetrySrcConnID) {
-				ok = false
-			}
-			sc.mu.Unlock()
+			ok := contains(cliSCIDs, sg.HandshakeDestConnID)
 			out.cids = "bad"
 			if ok {
 				out.cids = "ok"
